@@ -229,6 +229,22 @@ def chk_coords(case, acc, seed):
             acc.violation('coords:nonzero-outside-mask:unnormalised', dict(case, j=j), 'un-normalised mode is non-zero / not finite outside the mask')
         elif rm.maxerr(zu, zub) > 1e-12:
             acc.violation('coords:depends-on-mask-values:unnormalised', dict(case, j=j), 'un-normalised mode depends on the mask values, not only on its support')
+    # ... and with caller-supplied coordinates: still only the support of the mask matters (w8-C11-1)
+    try:
+        rho_c, th_c = lentil.zernike_coordinates(ref_mask)
+        for j in (1, 4, 3, 8):
+            for normalize in (True, False):
+                zs = np.asarray(lentil.zernike(mask, j, normalize=normalize, rho=np.array(rho_c), theta=np.array(th_c)), dtype=float)
+                zsb = np.asarray(lentil.zernike(ref_mask, j, normalize=normalize, rho=np.array(rho_c), theta=np.array(th_c)), dtype=float)
+                if rm.maxerr(zs, zsb) > 1e-12:
+                    acc.violation('coords:depends-on-mask-values:supplied-coords', dict(case, j=j, normalize=normalize),
+                                  'with caller-supplied rho/theta the mode depends on the mask values, not only on its support')
+        Bs = np.asarray(lentil.zernike_basis(mask, [4, 2, 7], rho=np.array(rho_c), theta=np.array(th_c)), dtype=float)
+        Bsb = np.asarray(lentil.zernike_basis(ref_mask, [4, 2, 7], rho=np.array(rho_c), theta=np.array(th_c)), dtype=float)
+        if rm.maxerr(Bs, Bsb) > 1e-12:
+            acc.violation('basis:depends-on-mask-values:supplied-coords', case, 'zernike_basis with supplied coordinates depends on the mask values')
+    except Exception as e:
+        acc.violation(f'coords:supplied:raises:{type(e).__name__}', case, repr(e))
     # the same through the basis / composition helpers, for every mask value
     try:
         Bv = np.asarray(lentil.zernike_basis(mask, [4, 2, 7]), dtype=float)
